@@ -35,7 +35,9 @@ def main():
         return 2
     res = {'property': prop, 'seed': sid}
     try:
-        demo = os.path.join(wt, '_demo.py')
+        # same depth as in the author's worktree (<worktree>/_out/<n>/demo.py): some demos locate the tree from __file__
+        os.makedirs(os.path.join(wt, '_out', '1'))
+        demo = os.path.join(wt, '_out', '1', 'demo.py')
         shutil.copy(os.path.join(src, 'demo.py'), demo)
         text = open(demo).read()
         # demos were written against the sub-agent's own worktree path
